@@ -76,7 +76,16 @@ def handle (inp out : String) : String :=
     match ofHex h with
     | some raw =>
       let f := fun c => showRes none (templateParse c name raw)
-      verdict s!"tmpl:{name}:{stOf out}" (f (cfgOf good)) out none (withRef (cfgOf good) f)
+      -- a publication-data record made of a time and the imprint named by the generator: accepted iff the imprint is one of the registry
+      let spec : Option String := match good.find? (·.startsWith "imp:") with
+        | some w => match ofHex (w.drop 4).toString with
+          | some b =>
+            if stOf out == "0" && !SchemaRef.imprintOK b then some "accepts-an-imprint-that-is-not-of-the-hash-algorithm-registry"
+            else if stOf out != "0" && SchemaRef.imprintOK b then some "rejects-an-imprint-of-the-hash-algorithm-registry"
+            else none
+          | none => none
+        | none => none
+      verdict s!"tmpl:{name}:{stOf out}" (f (cfgOf good)) out spec (withRef (cfgOf good) f)
     | none => "skip bad-hex"
   | "aggr" :: ver :: h :: good =>
     match ofHex h, ver.toNat? with
